@@ -455,7 +455,14 @@ func (m *Machine) runPath(entry *ssa.Function, item workItem, seq int) {
 			m.violation("go-panic", nil, nil)
 		default:
 			m.st.Paths++
-			m.exp.addInconclusive(fmt.Sprintf("engine error: %v\n%s\n%s", p, m.lastStack, stackOf()))
+			st := stackOf()
+			if i := strings.Index(st, "\n"); i >= 0 {
+				st = st[i+1:] // drop the goroutine id so identical errors collapse
+			}
+			if len(st) > 3000 {
+				st = st[:3000]
+			}
+			m.exp.addInconclusive(fmt.Sprintf("engine error: %v\n%s\n%s", p, m.lastStack, st))
 		}
 	}()
 	if entry.Pkg != nil && !m.inited[entry.Pkg] {
